@@ -852,6 +852,11 @@ def run(run: Run):
     _borrow13(run, 'C06.R13', _c09.r1_any, src)
     run.floor('C06.R13', 30)
     from . import lexer_eval as _lx
+    from . import pipeline_eval as _pe6
+    run.rule('C06.R15', 'the class generated for a workbook of awkward titles and texts is Python and reports the titles of the workbook '
+                        '(shared with C07.R9)')
+    run.guard('C06.R15', _pe6.hostile_obligations, run, 'C06.R15', src, g)
+    run.floor('C06.R15', 40)
     run.rule('C06.R14', 'a formula that does not fit the grammar is rejected with the parser exception wherever it ends (shared with C05.R2)')
     run.guard('C06.R14', _lx.parser_obligations, run, 'C06.R14', src, g, _lx.PARSE_PROBES[20:])
     run.floor('C06.R14', 10)
